@@ -29,6 +29,23 @@ CHECKS = {
         technique="TLA+ spec + TLC (safety+liveness); TLC-generated fault plans replayed on real processes; TLC trace validation",
         design_ref="4.1, 5/C33",
     ),
+    "C32": dict(
+        category="model_checking",
+        text="Executor.tla models TestCaseExecutor.execute's thread protocol (spawn, join/timeout = tracer.stop(), "
+             "second join, per-thread trace, tracer ownership `cur`, check() before every callback and statement, "
+             "non-atomic check/record, unwinding of aborted threads) and TLC checks NoPollution, "
+             "ResultIsOwnTrace and the liveness properties TimeoutReported / ExecuteReturns over all "
+             "interleavings. All harness-enforceable schedules of the model (which test case blocks, spins, "
+             "naps or raises; when each blocked call is released: in time, after its timeout, while a later "
+             "test runs, after everything) are replayed on the real TestCaseExecutor with generated "
+             "instrumented SUT functions and gates; TLC validates the real results (ExecutorTrace.tla).",
+        note="Timeout 0.25 s, grace 6 s. Races inside instrumented code (the check/record window) are "
+             "explored in the model only; replay controls threads at uninstrumented blocking points. "
+             "The model also exhibits the NoSpuriousTimeout hazard (late unwinding aborts the current test), "
+             "which C32 does not forbid; it is reported in evidence only.",
+        technique="TLA+ spec + TLC (safety+liveness, what-if variants); schedule replay on real threads; TLC trace validation",
+        design_ref="4.2, 5/C32",
+    ),
 }
 
 NOT_BUILT_REASON = "not built yet in this round (planned, see DESIGN.md section 5); no claim is made"
